@@ -44,6 +44,7 @@ OPTSETS = {
     "smallest": ((), "", False, True),
     "opaque": (("opaque",), "", False, False),
     "opaque-k": (("opaque",), "k", False, False),
+    "opaque-merge": (("opaque", "inferral"), "", True, False),
     "opaque-ku": (("opaque",), "ku", False, False),
     "oneway": (("oneway",), "", False, False),
     "oneway-k": (("oneway",), "k", False, False),
@@ -263,11 +264,11 @@ def std_groups(tier, dbs=("base", "forget", "forest"), opts=None, sched=True, rn
     n2 = len(tables(2))
     if "forest" in dbs and not any(o.startswith("opaque") for o in opts):
         # the start class can only be specified backwards (complement + quotient rules, also with statistics)
-        for opt in ("opaque", "opaque-k", "opaque-ku"):
+        for opt in ("opaque", "opaque-k", "opaque-ku", "opaque-merge"):
             add("opt-forest-%s-S2" % opt, "check_opt", {"db": "forest", "opt": opt, "S": 2}, expect=n2, weight=n2)
         if tier == "thorough":
             n3 = len(tables(3))
-            for opt in ("opaque", "opaque-k"):
+            for opt in ("opaque", "opaque-k", "opaque-merge"):
                 for lo in range(0, n3, 300):
                     hi = min(n3, lo + 300)
                     add("opt-forest-%s-S3-t%d" % (opt, lo), "check_opt", {"db": "forest", "opt": opt, "S": 3, "trange": [lo, hi]}, expect=hi - lo, weight=hi - lo)
